@@ -21,7 +21,7 @@ PARTS = [
     # 3 OneOf input + recursive input with defaults
     ("", 'input One @oneOf { a: Int b: String }\ninput Rec { v: Int = 3 next: Rec list: [Rec!] e: Color = RED }\nextendQ one(o: One, r: Rec = {next: {v: 2}}): Int\n'),
     # 4 repeatable custom directive with deprecated argument, several locations
-    ("", 'directive @meta(key: String! = "k", old: Int @deprecated(reason: "gone")) repeatable on FIELD_DEFINITION | OBJECT | ENUM_VALUE | ARGUMENT_DEFINITION\n'),
+    ("", 'directive @meta(key: String! = "k", old: Int @deprecated(reason: "gone"), tag: Color = RED) repeatable on FIELD_DEFINITION | OBJECT | ENUM_VALUE | ARGUMENT_DEFINITION\n'),
     # 5 custom scalar with specifiedBy
     ("", 'scalar Url @specifiedBy(url: "https://example.com/url")\nextendQ home: Url\n'),
     # 6 deprecations on field / argument / enum value / input field
